@@ -50,13 +50,25 @@ pub fn corpus(tier_full: bool) -> Vec<Program> {
     for i in 0..k1.count() {
         out.push(k1.program(i));
     }
-    if tier_full {
-        let k2 = c08::Space::new(2, false);
-        for i in 0..k2.count() {
-            out.push(k2.program(i));
-        }
-    }
     out
+}
+
+/// The second bound: the C08 space with two declarations, enumerated lazily.
+pub fn second_bound(sink: &mut Sink, visit: &mut dyn FnMut(&mut Sink, u64, &Program)) {
+    let k2 = c08::Space::new(2, false);
+    let total = k2.count();
+    let mut idx = sink.single().unwrap_or(sink.shard);
+    while idx < total {
+        if sink.expired() {
+            return;
+        }
+        let p = k2.program(idx);
+        visit(sink, idx, &p);
+        if sink.single().is_some() {
+            return;
+        }
+        idx += sink.nshards;
+    }
 }
 
 fn empty_answer(v: &Value) -> bool {
@@ -263,12 +275,15 @@ impl Engine for C17 {
     }
     fn run_phase(&self, phase: &Phase, sink: &mut Sink) {
         let full = phase.param["full"].as_bool().unwrap();
-        let mut progs = corpus(full);
         if full {
-            // the second bound only adds the 2-declaration programs
-            let skip = corpus(false).len();
-            progs.drain(..skip);
+            second_bound(sink, &mut |sink, idx, p| {
+                if sweepable(p) {
+                    sink.visit(idx, || c02::program_json(p, &print(p).texts), |s| judge(p, Some(s)));
+                }
+            });
+            return;
         }
+        let progs = corpus(false);
         for (i, p) in progs.iter().enumerate() {
             let idx = i as u64;
             if !sink.mine(idx) {
